@@ -1194,7 +1194,7 @@ Qed.
 (* F-C14b (fixed): the only thing that takes Connected away from an entry is disconnect_peer for
    that very peer.  Table level, for the add_known_peer rule `ac`: *)
 Definition keeps_connected (ac : conn -> conn -> conn) : Prop :=
-  ac Connected Connected = Connected /\ ac Connected NotConnected = Connected.
+  forall c, ac Connected c = Connected.
 
 Definition conn_still (n n' : node) : Prop :=
   n_key n' = n_key n /\ n_conn n' = Connected /\ (n_addr n = true -> n_addr n' = true).
@@ -1225,11 +1225,10 @@ Qed.
 Lemma apply_slot_connected : forall ac K b o n,
   keeps_connected ac ->
   In n b -> n_conn n = Connected ->
-  (forall k a c, o = OAdd k a c -> c = Connected \/ c = NotConnected) ->
   o <> ODisconnected (n_key n) ->
   exists n', In n' (apply_slot_gen ac o b (bucket_entry K b (op_key o))) /\ conn_still n n'.
 Proof.
-  intros ac K b o n [Hac1 Hac2] Hin Hc Hadd Hnd.
+  intros ac K b o n Hac Hin Hc Hnd.
   set (k := op_key o) in *.
   assert (Hmid : forall a y y' c, In n (a ++ y :: c) -> n <> y -> In n (a ++ y' :: c)).
   { intros a y y' c H Hny. apply in_app_iff in H. apply in_app_iff.
@@ -1246,7 +1245,7 @@ Proof.
       * exists n. split; [exact Hin|apply conn_still_refl; exact Hc].
       * exists n. split; [exact Hin|apply conn_still_refl; exact Hc].
       * eexists. split; [apply Hnew|]. split; simpl; auto. split; auto.
-        rewrite Hc. destruct (Hadd _ _ _ eq_refl) as [->| ->]; assumption.
+        rewrite Hc. apply Hac.
       * eexists. split; [apply Hnew|]. split; simpl; auto. split; auto.
         intro Ha. rewrite Ha. reflexivity.
       * eexists. split; [apply Hnew|]. split; simpl; auto. split; auto.
@@ -1268,11 +1267,10 @@ Qed.
 Lemma tstep_connected : forall ac local K t o j n,
   keeps_connected ac ->
   In n (nth j t []) -> n_conn n = Connected ->
-  (forall k a c, o = OAdd k a c -> c = Connected \/ c = NotConnected) ->
   o <> ODisconnected (n_key n) ->
   exists n', In n' (nth j (tstep ac local K t o) []) /\ conn_still n n'.
 Proof.
-  intros ac local K t o j n Hac Hin Hc Hadd Hnd. unfold tstep.
+  intros ac local K t o j n Hac Hin Hc Hnd. unfold tstep.
   destruct (step_gen_cases ac local K t o) as [E|[i [Hi E]]]; rewrite E.
   - exists n. split; [exact Hin|apply conn_still_refl; exact Hc].
   - destruct (Nat.eq_dec j i) as [->|Hji].
@@ -1297,8 +1295,7 @@ Lemma kadd_connected : forall ac local K s pa j n,
   exists n', In n' (nth j (k_table (kadd ac local K s pa)) []) /\ conn_still n n'.
 Proof.
   intros ac local K s pa j n Hac Hin Hc. simpl. apply tstep_connected; auto.
-  - intros k a c E. inversion E; subst. apply believed_cases.
-  - discriminate.
+  discriminate.
 Qed.
 
 Lemma kupdate_connected : forall ac local K l s j n,
@@ -1351,7 +1348,7 @@ Proof.
 Qed.
 
 Lemma add_conn_keeps : keeps_connected add_conn.
-Proof. split; reflexivity. Qed.
+Proof. intro c. reflexivity. Qed.
 
 (* F-C14b before the repair: a mention in a reply (no disconnect anywhere in the history) turns the
    Connected entry of a peer with an open connection into NotConnected *)
